@@ -274,3 +274,13 @@ class Lemma:
     def obligations(self, c):
         """list of (label, formula) that must be valid; may use c.int(...) etc. for universals"""
         raise NotImplementedError
+
+
+def shared(target, prop):
+    """the same contract on the same real code as part of ANOTHER property's check (a property that depends on the function):
+    a copy of `target` whose obligations are filed under `prop`"""
+    cls = type('%s_%s' % (prop, type(target).__name__), (type(target),), {'prop': prop})
+    o = cls.__new__(cls)
+    o.__dict__.update(target.__dict__)
+    return o
+
